@@ -734,8 +734,11 @@ impl<'a> SkiplistIterator<'a> {
 		}
 		// Check upper bound first - if entry is at or past upper, move backward
 		if let Some(upper) = self.upper.as_deref() {
-			while self.is_valid() {
-				let key = self.key_bytes();
+			// `nd` is a real node here. Do not use `is_valid()` for the walk: it is
+			// false on the cached `upper_node` (set by an earlier forward seek), which
+			// is exactly an entry that has to be stepped over.
+			while self.nd != self.list.head && !self.nd.is_null() {
+				let key = unsafe { (*self.nd).get_key_bytes(&self.list.arena) };
 				if (self.list.cmp)(upper, key) == Ordering::Greater {
 					// key < upper, so this entry is valid
 					break;
